@@ -85,9 +85,17 @@ func DenormalizeActions(ac <-chan Action) <-chan Action {
 func CountActions(acs []<-chan Action) (int, int, int, bool) {
 	var buy, hold, sell int
 
-	for _, ac := range acs {
+	for i, ac := range acs {
 		action, ok := <-ac
 		if !ok {
+			// The other channels may still have actions: drain them,
+			// so that the goroutines feeding them can finish.
+			for j, other := range acs {
+				if j != i {
+					go helper.Drain(other)
+				}
+			}
+
 			return 0, 0, 0, false
 		}
 
